@@ -213,6 +213,12 @@ def enumerate_cases(tier, seed):
                         # single-readout and the time-domain path slice them with the target range) - see ASSUMPTIONS
                         cases.append({"fam": "fit", "func": func, "ntargets": ntargets, "weights": weights, "dims": dims,
                                       "range": rk, "rtype": ("pixel", "signal")[(ntargets + dims + len(rk)) % 2]})
+    # target frames stored as integers (int32 / uint16 .npy files) next to fractional weights
+    for func in FUNCS:
+        for weights in ("none", "scalar", "file"):
+            for dims, tdtype in ((2, "int32"), (3, "uint16"), (2, "uint16")):
+                cases.append({"fam": "fit", "func": func, "ntargets": 2, "weights": weights, "dims": dims,
+                              "range": "sub", "rtype": "pixel", "tdtype": tdtype})
     # input arguments: the same value for two consecutive targets
     for func in FUNCS:
         for ntargets in (2, 3):
@@ -270,7 +276,7 @@ def expected_size(tier, seed):
     over = [(a, b) for a, b in subranges(ROWS + 2) if b > ROWS or thorough]
     rsize = sum(1 if a == 0 else 2 for a, b in over)
     time = sum((1 + nsub(3) + 2) * (1 + nsub(nf) + 1) for nf in ((3, 2, 4) if thorough else (3,)))
-    fit = len(FUNCS) * 3 * ((3 + 4) + (3 + 4) + (3 + 4)) + len(FUNCS) * 2
+    fit = len(FUNCS) * 3 * ((3 + 4) + (3 + 4) + (3 + 4)) + len(FUNCS) * 2 + len(FUNCS) * 3 * 3
     combos = 3 * 2 * 2 * 2 * 2
     runs = (combos * 2 if thorough else combos // 2 + combos // 4) + 1 + 2 + 4
     nrange = rows + cols + tsize + rsize + time
@@ -289,10 +295,17 @@ def build(td, seed, *, res, tgt, tshape, times=None, func="sum_of_abs_residuals"
     td = Path(td)
     targets, tfiles, wfiles, wvals = [], [], [], []
     cs = seed if content_seed is None else content_seed      # file NAMES depend on `seed`, file CONTENT on `cs`
+    tdtype = calkw.pop("tdtype", None)
     for i in range(ntargets):
         arr = target_array(i, tuple(tshape), cs)
         p = td / f"target{i}_{seed}.npy"
-        np.save(p, arr)
+        if tdtype:
+            # target frames stored with an integer type (raw ADU frames): the fitness is computed on their values
+            stored = np.round(arr).astype(tdtype)
+            np.save(p, stored)
+            arr = stored.astype(float)
+        else:
+            np.save(p, arr)
         targets.append(arr)
         tfiles.append(p)
         if weights == "file":
@@ -473,7 +486,8 @@ def _run_problem(case, seed, td):
             cal.target_fit_range = tuple(tgt)
         else:
             cal, proc, info = build(td, seed, res=res, tgt=tgt, tshape=tshape, times=times, func=func, ntargets=ntargets,
-                                    weights=weights, rtype=rtype, pygmo_seed=1, bdup=bool(case.get("bdup")))
+                                    weights=weights, rtype=rtype, pygmo_seed=1, bdup=bool(case.get("bdup")),
+                                    tdtype=case.get("tdtype"))
         problem, _ = calib.real_problem(cal, proc)
     except Exception as e:  # noqa: BLE001
         exc = e
